@@ -73,7 +73,7 @@ def configJson (m : Model Float) : Json :=
     ("auxdata", putFs (auxData m.ps)), ("auxdata_order", putSs (auxOrder m.ps)),
     ("nmaindata", cfg.nmain), ("nauxdata", (auxData m.ps).length),
     ("poi_index", match m.poiIndex with | some i => (i : Json) | none => Json.null),
-    ("wf", Json.mkObj [("histoBlocksOK", histoBlocksOK m.spec m.cfg), ("paramsetsOK", paramsetsOK m), ("binwiseOK", binwiseOK m),
+    ("wf", Json.mkObj [("histoBlocksOK", histoBlocksOK m.spec m.cfg), ("paramsetsOK", paramsetsOK m), ("readsBelow", readsBelow m m.npars), ("binwiseOK", binwiseOK m),
                        ("singleLumi", singleLumi m), ("singularCovers", singularCovers m),
                        ("clipSampleNonPos", clipSampleNonPos m)]),
     ("paramsets", Json.arr (m.ps.map fun p => Json.mkObj [
@@ -111,6 +111,10 @@ def runQuery (m : Model Float) (q : Json) : R Json := do
     let θ ← fldFs q "pars"
     let data ← fldFs q "data"
     pure (termsJson (logpdfTerms P m (parOf θ) data))
+  | "ws_data" =>
+    let obs ← (← fldA q "observations").mapM fun o => do
+      pure ((← fldS o "name"), (← fldFs o "data"))
+    pure (putFs (workspaceData m obs))
   | "template_terms" =>
     let θ ← fldFs q "pars"
     let data ← fldFs q "data"
